@@ -88,6 +88,8 @@ pub enum Step {
 	/// 1 mem::forget, 2 into_inner, 3 into_child / get_mut): the key is alive
 	/// exactly as long as the value that owns it
 	ParkKey { cont: u8, route: u8 },
+	/// ask for the key `n` times in a row while it is alive
+	ProbeKeyMany { n: u32 },
 	/// `lockable::RawLock::poison(&lock)` on stand-alone leaf `leaf` (a safe public
 	/// call): from now on blocking acquisitions of it panic and try_* fails
 	Kill { leaf: usize },
